@@ -12,6 +12,7 @@ CONSTANTS
   FixFirstRep = TRUE
   FixShort = TRUE
   FixNilReq = TRUE
+  FixBadReq = TRUE
 VIEW view
 INVARIANTS TypeOK OwnIndexOnly Correct
 CHECK_DEADLOCK FALSE
